@@ -69,6 +69,11 @@ struct State
   bool clobber = false;
   int nextOrdinal = 0;
   std::map<int, std::string> closedOnce; // fd -> label it had when the library closed it (until the number is reused)
+  std::map<int, std::string> captures;
+  std::set<int> captured;
+  int hangWaitMs = 3000;
+  std::map<int, long> capRecv, capSend;
+  std::map<int, long> sendBudget;
 };
 
 int newOrdinal(State &s)
@@ -184,6 +189,12 @@ void reset()
   s.quiet = false;
   s.nextOrdinal = 0;
   s.closedOnce.clear();
+  s.captures.clear();
+  s.captured.clear();
+  s.hangWaitMs = 3000;
+  s.capRecv.clear();
+  s.capSend.clear();
+  s.sendBudget.clear();
 }
 
 void virtual_time(bool on) { Guard g(S().mtx); S().virt = on; }
@@ -231,6 +242,31 @@ void ledger_strict(bool on) { Guard g(S().mtx); S().strict = on; }
 void clobber_errno(bool on) { Guard g(S().mtx); S().clobber = on; }
 long count(std::string const &sys) { Guard g(S().mtx); return S().counts[sys]; }
 long scripted_fired() { Guard g(S().mtx); return S().fired; }
+void capture(int fd, bool on)
+{
+  Guard g(S().mtx);
+  if(on) S().captured.insert(fd); else S().captured.erase(fd);
+}
+std::string take_capture(int fd)
+{
+  Guard g(S().mtx);
+  std::string r;
+  r.swap(S().captures[fd]);
+  return r;
+}
+void cap(std::string const &sys, int fd, long k)
+{
+  Guard g(S().mtx);
+  auto &m = (sys == "send") ? S().capSend : S().capRecv;
+  if(k > 0) m[fd] = k; else m.erase(fd);
+}
+void budget(int fd, long n)
+{
+  Guard g(S().mtx);
+  if(n >= 0) S().sendBudget[fd] = n; else S().sendBudget.erase(fd);
+}
+void log_note(std::string const &line) { Guard g(S().mtx); logLine(line); }
+void hang_wait_ms(int ms) { Guard g(S().mtx); S().hangWaitMs = ms; }
 
 } // namespace vos
 
@@ -343,7 +379,9 @@ int poll(struct pollfd *fds, nfds_t n, int timeout)
   }
   // unlimited wait in virtual time with nothing ready right now: give the kernel/peer threads
   // a moment (real), then declare a hang rather than blocking the check forever
-  r = fn(fds, n, 3000);
+  int hw;
+  { Guard g(s.mtx); hw = s.hangWaitMs; }
+  r = fn(fds, n, hw);
   if(r != 0) return finish(r, errno, "waited");
   bool ex;
   { Guard g(s.mtx); ex = s.hangExits; }
@@ -366,6 +404,21 @@ ssize_t send(int fd, void const *buf, size_t len, int flags)
     inject = nextCall("send");
     if(!inject) have = takeDirective("send", fd, d);
     who = labelLocked(fd);
+    if(!inject && !have) {
+      auto c = s.capSend.find(fd);
+      if(c != s.capSend.end()) { have = true; d = Directive{"send", fd, "short", c->second}; }
+    }
+    if(!inject) {
+      auto b = s.sendBudget.find(fd);
+      if(b != s.sendBudget.end()) {
+        if(b->second <= 0) { have = true; d = Directive{"send", fd, "eagain", 0}; }
+        else if(!have || d.kind == "short") {
+          long k = (have && d.arg < b->second) ? d.arg : b->second;
+          have = true;
+          d = Directive{"send", fd, "short", k};
+        }
+      }
+    }
   }
   ssize_t r;
   int err = 0;
@@ -381,6 +434,11 @@ ssize_t send(int fd, void const *buf, size_t len, int flags)
   {
     Guard g(s.mtx);
     logLine("send " + who + " len=" + std::to_string(len) + " nosignal=" + ((flags & MSG_NOSIGNAL) ? "1" : "0") + " " + how + " -> " + resStr(r, err));
+    if(r > 0 && s.captured.count(fd)) s.captures[fd].append(static_cast<char const *>(buf), static_cast<size_t>(r));
+    if(r > 0) {
+      auto b = s.sendBudget.find(fd);
+      if(b != s.sendBudget.end()) b->second -= r;
+    }
   }
   if(r < 0) errno = err;
   return r;
@@ -435,6 +493,10 @@ ssize_t recv(int fd, void *buf, size_t len, int flags)
     inject = nextCall("recv");
     if(!inject) have = takeDirective("recv", fd, d);
     who = labelLocked(fd);
+    if(!inject && !have) {
+      auto c = s.capRecv.find(fd);
+      if(c != s.capRecv.end()) { have = true; d = Directive{"recv", fd, "short", c->second}; }
+    }
   }
   ssize_t r;
   int err = 0;
